@@ -16,6 +16,7 @@ SUBS = [
     dict(name="endian", quick=dict(cases=400000, shards=1), thorough=dict(cases=3000000, shards=1)),
     dict(name="addr", quick=dict(cases=100000, shards=3), thorough=dict(cases=800000, shards=3)),
     dict(name="json", quick=dict(cases=100000, shards=7), thorough=dict(cases=800000, shards=7)),
+    dict(name="bigjson", quick=dict(cases=1, shards=1), thorough=dict(cases=2, shards=4)),
 ]
 
 
